@@ -1,4 +1,5 @@
 import Diffcalc
+import Diffcalc.Drive.SerialWire
 /-!
 # Line-protocol driver (Float reading of the models)
 
@@ -240,6 +241,34 @@ def step (st : DState) (line : String) : DState × String :=
         | .error e => (st, showPErr e)
       | _, _, _ => (st, "bad-op")
     | _, _ => (st, "bad-op")
+  | "ser.asdict" :: kind :: rest =>
+    -- raw internal state -> the dictionary `asdict` would give
+    match SerialWire.parseJ rest with
+    | some (j, []) =>
+      if kind == "hkl" then
+        match SerialWire.hklOfRaw j with
+        | some s => (st, "ok " ++ SerialWire.showJ (Serial.hklDict s))
+        | none => (st, "bad-op")
+      else if kind == "ub" then
+        match SerialWire.ubOfRaw j with
+        | some s => (st, "ok " ++ SerialWire.showJ (Serial.ubDict s))
+        | none => (st, "bad-op")
+      else (st, "bad-op")
+    | _ => (st, "bad-op")
+  | "ser.fromdict" :: kind :: rest =>
+    -- a dictionary -> the raw internal state `fromdict` would build ("raise" where the Python raises)
+    match SerialWire.parseJ rest with
+    | some (j, []) =>
+      if kind == "hkl" then
+        match Serial.hklOfDict j with
+        | some s => (st, "ok " ++ SerialWire.showJ (SerialWire.hklRaw s))
+        | none => (st, "raise")
+      else if kind == "ub" then
+        match Serial.ubOfDict j with
+        | some s => (st, "ok " ++ SerialWire.showJ (SerialWire.ubRaw s))
+        | none => (st, "raise")
+      else (st, "bad-op")
+    | _ => (st, "bad-op")
   | "polar.fwd" :: rest =>
     match parseFloats rest with
     | some [u0,u1,u2,u3,u4,u5,u6,u7,u8, h, k, l, pol, az] =>
